@@ -406,7 +406,7 @@ pub fn run_case(case: &ThreadReplay, idx: u64) -> RunResult {
             viol = Some(Violation { oracle: "O-res".into(), event: 0, detail: format!("setup failed: {}", o.short()) });
         }
     }
-    // warm-up commit so that sessions get a bounded snapshot (finding D26)
+    // one committed row before the clients start (part of the base count of t0)
     let _ = eng.exec("INSERT INTO t0 VALUES (0, 0)");
     let seq = Arc::new(std::sync::atomic::AtomicU64::new(0));
     let logs: Vec<Arc<Mutex<ClientLog>>> = (0..case.clients).map(|_| Arc::new(Mutex::new(ClientLog::default()))).collect();
